@@ -218,6 +218,14 @@ def brute_hht(F, A, e, mode):
     return dense, oned, total
 
 
+def edges_assumption(e, what='edges'):
+    """Validator of the theorems' hypothesis on the real edge vector (non-decreasing, finite)."""
+    e = [float(v) for v in e]
+    if any(v != v for v in e) or any(a > b for a, b in zip(e, e[1:])):
+        return [Failure('assumption:%s-not-increasing' % what, str(e))]
+    return []
+
+
 def hht_holds(F, A, e, mode, out, do_1d=True):
     F = arr(F)
     A = arr(A)
@@ -235,6 +243,7 @@ def hht_holds(F, A, e, mode, out, do_1d=True):
             fs.append(Failure('raises:%s:%s' % (nm, o['error']), o.get('msg', '')))
     if fs:
         return fs
+    fs += edges_assumption(e)
     exp_d, exp_1, total = brute_hht(F, A, e, mode)
     flat_d = [v for row in exp_d for v in row]
     if d['shape'] != [nb, T]:
@@ -250,9 +259,12 @@ def hht_holds(F, A, e, mode, out, do_1d=True):
             if col_i != col_e:
                 if below != 0 and col_i[0] - col_e[0] == below and col_i[1:] == col_e[1:]:
                     kind = 'dense-ne-bruteforce:below-range-counted-in-first-bin'
+                elif sum(col_i) > sum(col_e):
+                    kind = 'dense-ne-bruteforce:extra-weight-in-time-column'
+                elif sum(col_i) < sum(col_e):
+                    kind = 'dense-ne-bruteforce:weight-missing-from-time-column'
                 else:
-                    cats = sorted({category(e, float(F[t, j])) for j in range(M)})
-                    kind = 'dense-ne-bruteforce:column-with-' + '+'.join(cats)
+                    kind = 'dense-ne-bruteforce:weight-in-wrong-bin'
                 detail = 'time %d: freqs %s amps %s edges %s mode %s: got column %s expected %s' % (
                     t, F[t].tolist(), A[t].tolist(), e, mode, col_i, col_e)
                 break
@@ -389,6 +401,7 @@ def holo_holds(F1, F2, A2, e1, e2, mode, out):
         return fs
     T = F1.shape[0]
     na, nc = len(e2) - 1, len(e1) - 1
+    fs += edges_assumption(e1, 'carrier-edges') + edges_assumption(e2, 'am-edges')
     exp = brute_holo(F1, F2, A2, e1, e2, mode)
     full, sm, mn = out['none'], out['sum'], out['mean']
     scale = max(1.0, float(np.max(np.abs(A2))) ** (2 if mode == 'energy' else 1) if A2.size else 1.0)
